@@ -206,8 +206,14 @@ def get_attr(ex, base, attr):
     if isinstance(base, VFunc) and base.kind == "builtin":
         return VFunc("builtin", f"{base.target}.{attr}")
     if isinstance(base, VNode):
-        if attr == "name":
-            return VOpaque(("name", base.t))
+        if attr in ("name", "star"):
+            return VOpaque((attr, base.t))
+        if attr == "interventions":
+            b_, ivs, _ = L.var_algebra()
+            t0 = base.t
+            v = VSet(lambda i: ivs(t0, i), kind="frozenset", owned=False)
+            v.frozen = True
+            return v
         return VFunc("boundlib", attr, self_val=base)
     if isinstance(base, (VSet, VSeq, VTuple, VDict, VFam, VComp, VStr)):
         if isinstance(base, VSet) and hasattr(base, "nx_view") and attr in ("items", "values"):
@@ -588,6 +594,26 @@ def compare(ex, l, op, r):   # noqa: F811  (wraps the structural compare with le
 def construct(ex, cls: ClassInfo, args, kwargs):
     L = ex.L
     q = cls.qualname
+    if q in ("y0.dsl.Variable", "y0.dsl.CounterfactualVariable") and not args and isinstance(kwargs.get("name"), VOpaque) \
+            and isinstance(kwargs["name"].what, tuple) and kwargs["name"].what[0] == "name":
+        # Variable(name=v.name, star=v.star) / CounterfactualVariable(name=v.name, star=v.star, interventions=S): same name and mark as v
+        b_, ivs, plain = L.var_algebra()
+        src = kwargs["name"].what[1]
+        st = kwargs.get("star")
+        if not (isinstance(st, VOpaque) and isinstance(st.what, tuple) and st.what[0] == "star" and st.what[1].eq(src)):
+            raise OutOfSubset("Variable(...) with a name and a mark taken from different objects")
+        if q == "y0.dsl.Variable":
+            return VNode(plain(src))
+        S = ex.as_set(kwargs["interventions"])
+        ex.require(L.exists(1, lambda i: S.has(i)), "ValueError", "CounterfactualVariable.interventions")
+        ex.require(L.forall(1, lambda i: L.Implies(S.has(i), L.is_intervention(i))), "TypeError", "CounterfactualVariable.interventions")
+        bs = list(ex.binders)
+        nm = L.fresh_name("cfvar")
+        F = z3.Function(nm, *([c.sort() for c in bs] + [L.Node]))
+        w = F(*bs)
+        L.add_axioms({nm}, [L.forall_c(bs, L.And(L.is_cf(w), b_(w) == b_(src), L.forall(1, lambda i: ivs(w, i) == S.has(i))))] if False else [])
+        ex.assume(L.And(L.is_cf(w), b_(w) == b_(src), L.forall(1, lambda i: ivs(w, i) == S.has(i))))
+        return VNode(w)
     if q == "y0.dsl.Variable" and len(args) == 1 and not kwargs and isinstance(args[0], VFStr):
         ints = [p_ for p_ in args[0].parts if isinstance(p_, VInt)]
         if len(ints) == 1 and all(isinstance(p_, (str, VStr, VInt, VNone)) or p_ is None for p_ in args[0].parts):
@@ -1125,8 +1151,8 @@ def call_method(ex, obj, name, args, kwargs):
         raise OutOfSubset(f"sequence method {name}")
     if isinstance(obj, VNode):
         if name == "get_base":
-            f = z3.Function("get_base", L.Node, L.Node)
-            return VNode(f(obj.t))
+            b_, _, _ = L.var_algebra()
+            return VNode(b_(obj.t))
         raise OutOfSubset(f"Variable method {name}")
     if isinstance(obj, VObj) and obj.cls == "gattrs":
         if name == "get":
